@@ -246,8 +246,8 @@ def parts(tier):
                      bounds={'timers': 1, 'iterations': 3, 'deadline': 'datetime 0/1/3 whole seconds after a fixed calendar second; clock at an arbitrary real instant at or after it', 'ops': 'none'},
                      encoded=ENC, budget_s=60)]
     return [Part('absolute-deadline', make_harness(2, 4, noise=False, absolute=True), bounds={'timers': 2, 'iterations': 4, 'deadline': 'numeric or datetime (0/1/3 s after a fixed second)'}, encoded=ENC, budget_s=900),
-            Part('timers', make_harness(2, 6), bounds={'timers': 2, 'iterations': 6}, encoded=ENC, budget_s=1800),
-            Part('three-timers', make_harness(3, 4, noise=False), bounds={'timers': 3, 'iterations': 4}, encoded=ENC, budget_s=1800)]
+            Part('timers', make_harness(2, 4), bounds={'timers': 2, 'iterations': 4}, encoded=ENC, budget_s=1800),
+            Part('three-timers', make_harness(3, 3, noise=False), bounds={'timers': 3, 'iterations': 3}, encoded=ENC, budget_s=1800)]
 
 
 if __name__ == '__main__':
